@@ -7,14 +7,26 @@ from extract import c07_tables
 from gen import dbgen, exprgen
 from props.c12 import workdir
 
-THEOREMS = ["IgVerif.C07.c07_literal", "IgVerif.C07.c07_strtol_snoc", "IgVerif.C07.c07_eval", "IgVerif.C07.c07_never_wrong", "IgVerif.C07.c07_unknown_is_unevaluated", "IgVerif.C07.c07_spec_in_range",
+THEOREMS = ["IgVerif.C07.c07_char_plain", "IgVerif.C07.c07_char_simple_escapes", "IgVerif.C07.c07_char_octal", "IgVerif.C07.c07_char_hex",
+            "IgVerif.C07.c07_enum_increment", "IgVerif.EnumVal.elements_spec", "IgVerif.C07.c07_literal", "IgVerif.C07.c07_strtol_snoc", "IgVerif.C07.c07_eval", "IgVerif.C07.c07_never_wrong", "IgVerif.C07.c07_unknown_is_unevaluated", "IgVerif.C07.c07_spec_in_range",
             "IgVerif.C07.c07_extraction_ok", "IgVerif.C07.c07_precedence", "IgVerif.C07.c07_productions", "IgVerif.C07.c07_unary_productions",
             "IgVerif.C07.c07_eval_mirror", "IgVerif.Ex.evaluate_eq_cxxEval", "IgVerif.Ex.cxxEval_inInt"]
 PARTIAL = [("c07_parse_print (bison's conflict resolution by the %left/%right table yields the C++ parse)",
             "the precedence/associativity table and the operator productions are decided on the extracted grammar; that an LALR parser with that "
             "table parses minimally parenthesised text into the intended tree is validated by the correspondence (g++ and interrogate read the same text), not proved"),
-           ("c07_char_literal (character literals and escape sequences)", "covered by the correspondence and the g++ oracle only; integer literals are c07_literal"),
-           ("c07_enum_increment", "implicit enumerator increment is exercised by the generator and compared with g++, not modelled in Lean")]
+           ("c07_char_literal_wide (u8/u/U/L prefixes, multi-character literals, universal character names)", "narrow single-character literals are c07_char_*; the rest is outside the model")]
+
+
+def enum_token(e, v):
+    """how `add_element` sees a written initialiser: a literal, `expr + literal`, or some other expression of value v"""
+    if e[0] == "int":
+        return "l%d" % e[1]
+    if e[0] == "bin" and e[1] == "add" and e[3][0] == "int":
+        try:
+            return "a%d+%d" % (exprgen.cxx_eval(e[2]), e[3][1])
+        except exprgen.Undefined:
+            pass
+    return "s%d" % v
 
 
 def build_header(rng, n_items):
@@ -26,6 +38,8 @@ def build_header(rng, n_items):
     enum_open = None
     enum_last = None
     arrays = []
+    enums = {}      # enum name -> [(enumerator, token for `igdriver enum`)]
+    build_header.enums = enums
     for i in range(n_items):
         kind = rng.choice(["const", "enum", "enum", "enum", "macro", "array", "constexpr"])
         if kind != "enum" and enum_open is not None:
@@ -48,6 +62,7 @@ def build_header(rng, n_items):
                 v = enum_last + 1
                 lines.append("  %s," % name)
                 items.append(("enum", name, ("int", v), v))
+                enums.setdefault(enum_open, []).append((name, "-"))
             elif rng.random() < 0.3:
                 # `name op literal` / `literal op literal` initialisers, typically followed by implicit enumerators
                 # (add_element() folds `X + k` specially when the next enumerator has no initialiser)
@@ -63,10 +78,12 @@ def build_header(rng, n_items):
                     e, v = ("int", 4), 4
                 lines.append("  %s = %s," % (name, exprgen.text(e)))
                 items.append(("enum", name, e, v))
+                enums.setdefault(enum_open, []).append((name, enum_token(e, v)))
             else:
                 e, v = exprgen.gen_valid(rng, depth, refs)
                 lines.append("  %s = %s," % (name, exprgen.text(e, rng)))
                 items.append(("enum", name, e, v))
+                enums.setdefault(enum_open, []).append((name, enum_token(e, v)))
             enum_last = v
             refs.append((name, v))
         elif kind == "macro":
@@ -149,6 +166,15 @@ def run(ck):
                 continue
             rc, so, se = iglib.sh([str(wd / "ref")], timeout=20)
             ref = dict((l.split()[0], int(l.split()[1])) for l in so.strip().split("\n") if l)
+            # implicit enumerator values: the Lean model of add_element on the written initialisers
+            enames = sorted(build_header.enums)
+            emodel = iglib.run_driver("enum", ["enum " + " ".join(t for _, t in build_header.enums[en]) for en in enames]) if enames else []
+            for en, mline in zip(enames, emodel):
+                mv = [int(x) for x in mline.split()]
+                for (name, tok), m1 in zip(build_header.enums[en], mv):
+                    if got.get(name) is not None:
+                        ck.corr_case("enumerator-vs-add_element-model", "%s in %s: %s" % (name, en, " ".join(t for _, t in build_header.enums[en])), got[name] == m1,
+                                     detail="enumerator %s: database %s, model %s" % (name, got[name], m1), feature=["implicit" if tok == "-" else "init-" + tok[0]])
             ops = ["eval " + exprgen.sexpr(e) for _, _, e, _ in items]
             model = iglib.run_driver("expr", ops)
             for (kind, name, e, v), mline in zip(items, model):
@@ -208,6 +234,50 @@ def run(ck):
                 ck.search_case("values-equal-gxx")
                 if gv != want:
                     ck.violation("wrong-constant:literal", "the literal %s is recorded as %s, its value is %d" % (l, gv, want), {hp.name: "enum Lits { lit%d = %s };\n" % (i, l)})
+
+        # ---- character literals: database value vs the Lean scan_escape_sequence model vs g++ ---------------------------------------
+        chars = ["A", "z", "0", " ", "~", "\"", "\\n", "\\t", "\\\\", "\\'", "\\\"", "\\?", "\\a", "\\b", "\\f", "\\r", "\\v", "\\e", "\\0", "\\7", "\\101", "\\377", "\\12",
+                 "\\x41", "\\xff", "\\x7", "\\x041", "\\x0000041", "\\x0a", "\\xA"]
+        for i in range(40 if quick else 800):
+            kind = rng.choice(["plain", "oct", "hex", "hex"])
+            if kind == "plain":
+                c = chr(rng.randrange(32, 127))
+                if c in "'\\":
+                    continue
+                chars.append(c)
+            elif kind == "oct":
+                chars.append("\\" + oct(rng.randrange(0, 256))[2:].rjust(rng.choice([1, 2, 3]), "0")[-3:])
+            else:
+                chars.append("\\x" + "0" * rng.choice([0, 0, 0, 1, 3]) + rng.choice(["%x", "%X"]) % rng.randrange(0, 256))
+        chars = list(dict.fromkeys(chars))
+        text = "enum Chars {\n" + ",\n".join("  ch%d = '%s'" % (i, c) for i, c in enumerate(chars)) + "\n};\n"
+        hp = wd / "chars.h"
+        hp.write_text(text)
+        od = wd / "chars.in"
+        cmd = [str(bdir / "bin" / "interrogate"), "-D__cplusplus", "-promiscuous", "-oc", str(wd / "l.cxx"), "-od", str(od), "-module", "m", "-library", "l", "-c", "-fnames", hp.name]
+        rc, so, se = iglib.sh(cmd, cwd=str(wd), timeout=120, env={"SOURCE_DATE_EPOCH": "1"})
+        (wd / "chars.cpp").write_text('#include <cstdio>\n#include "chars.h"\nint main() {\n' + "".join('  printf("%%d\\n", (int)ch%d);\n' % i for i in range(len(chars))) + "  return 0;\n}\n")
+        rc2, so2, se2 = iglib.sh(["g++", "-std=c++17", "-w", "-o", str(wd / "chars"), str(wd / "chars.cpp")], cwd=str(wd), timeout=120)
+        ref = [int(x) for x in iglib.sh([str(wd / "chars")], timeout=20)[1].split()] if rc2 == 0 else None
+        if rc != 0 or not od.exists():
+            ck.violation("interrogate-fails:char-literals", "interrogate failed (rc=%s) on an enum of character literals: %s" % (rc, se[-300:]), {hp.name: text, "cmd.txt": " ".join(cmd) + "\n"}, se[-3000:])
+        elif ref is None:
+            ck.extra.setdefault("generator_rejected_by_gxx", []).append(se2[-300:])
+        else:
+            db = dbgen.dec_file(lay, od.read_bytes())
+            got = {}
+            for _, t in db["type"]:
+                for ev in t["_enum_values"]:
+                    got[ev["_name"].decode()] = ev["_value"]
+            model = iglib.run_driver("lit", ["chr " + (c + "'").encode().hex() for c in chars])
+            for i, (c, m) in enumerate(zip(chars, model)):
+                gv = got.get("ch%d" % i)
+                form = "plain" if not c.startswith("\\") else "hex" if c[1] == "x" else "octal" if c[1].isdigit() else "simple"
+                ck.corr_case("char-literal-vs-scan_escape_sequence-model", "'%s'" % c, gv == int(m), detail="database %s, model %s" % (gv, m), nontrivial=len(c) > 1, feature=["char-" + form])
+                ck.search_case("values-equal-gxx")
+                if gv != ref[i]:
+                    ck.violation("wrong-constant:char-literal", "the character literal '%s' is recorded as %s, the C++ compiler computes %d" % (c, gv, ref[i]),
+                                 {hp.name: "enum Chars { ch%d = '%s' };\n" % (i, c)})
 
         # ---- things interrogate cannot evaluate must come out unevaluated, not as numbers; and must not crash ------
         bad = "enum B { B0 = 1/0, B1 = 5 %% 0 };\n#define MB (1/0)\nstruct SB { __published: int x[some_unknown + 1]; };\nenum B2 { C0 = some_unknown, C1 };\n#define MU (some_unknown * 2)\n".replace("%%", "%")
